@@ -53,7 +53,9 @@ def strategy_(draw):
         "pi_frac": draw(st.floats(0.3, 1.0)),
         "pi_offnode": draw(st.one_of(st.just(0.0), st.floats(0.05, 0.95))),
         "pf_frac": draw(st.floats(0.0, 0.95)),
-        "container": draw(st.sampled_from(["dict", "dataframe"])),
+        # DataFrame row labels: default, shifted, or a permutation of 0..n-1 (what sort_values / iloc[::-1] without
+        # reset_index leave behind) - the rows themselves are always in increasing pressure
+        "container": draw(st.sampled_from(["dict", "dataframe", "dataframe-offset-index", "dataframe-permuted-index"])),
     }
 
 
@@ -143,11 +145,17 @@ def check_case(case) -> Result:
     import warnings
 
     tab_in = dict(tab)
-    if case["container"] == "dataframe":
+    res.labels["container"] = case["container"]
+    if case["container"].startswith("dataframe"):
         import pandas as pd
 
         tab_in = pd.DataFrame(tab_in)
         kr_in = pd.DataFrame(kr_table)
+        if case["container"] == "dataframe-offset-index":
+            tab_in.index = np.arange(len(tab_in)) + 1000
+        elif case["container"] == "dataframe-permuted-index":
+            tab_in.index = np.arange(len(tab_in))[::-1]
+            kr_in.index = np.arange(len(kr_in))[::-1]
     else:
         kr_in = dict(kr_table)
     with warnings.catch_warnings():
